@@ -337,7 +337,7 @@ def plain(v):
     if isinstance(v, (tuple, list)):
         return [plain(x) for x in v]
     if isinstance(v, frozenset):
-        return sorted(plain(x) for x in v)
+        return sorted((plain(x) for x in v), key=lambda x: json.dumps(x, sort_keys=True, default=str))
     return v
 
 
